@@ -111,6 +111,60 @@ def cb_read_head(data, pos):
     raise ValueError('ai %d' % ai)
 
 
+def cb_parse(data, pos=0):
+    ''' one definite-length well-formed item -> (tree, next pos); tree = (mt, arg, payload) with payload =
+    octets (mt 2/3), list of trees (mt 4/5/6), None otherwise '''
+    mt, arg, p = cb_read_head(data, pos)
+    if mt in (0, 1, 7):
+        return (mt, arg, data[pos:p]), p
+    if mt in (2, 3):
+        if p + arg > len(data):
+            raise ValueError('eof')
+        return (mt, arg, data[p:p + arg]), p + arg
+    n = arg if mt == 4 else 2 * arg if mt == 5 else 1
+    kids = []
+    for _ in range(n):
+        k, p = cb_parse(data, p)
+        kids.append(k)
+    return (mt, arg, kids), p
+
+
+def cb_parse_seq(data):
+    out, p = [], 0
+    while p < len(data):
+        t, p = cb_parse(data, p)
+        out.append(t)
+    return out
+
+
+def cb_emit_foreign(tree, rng, rate=0.5):
+    ''' re-serialise as another (non-deterministic but valid) encoder might: longer-than-needed heads
+    for integers, lengths and counts, indefinite-length arrays '''
+    mt, arg, pay = tree
+    if mt in (1, 7):
+        return pay
+    if mt == 0:
+        return cb_head_long(0, arg, rng.choice([1, 2, 3])) if rng.random() < rate else cb_head(0, arg)
+    if mt in (2, 3):
+        h = cb_head_long(mt, arg, rng.choice([1, 2])) if rng.random() < rate / 2 else cb_head(mt, arg)
+        return h + pay
+    body = b''.join(cb_emit_foreign(k, rng, rate) for k in pay)
+    if mt == 4 and rng.random() < rate:
+        return b'\x9f' + body + b'\xff'
+    h = cb_head_long(mt, arg, 1) if rng.random() < rate / 2 else cb_head(mt, arg)
+    return h + body
+
+
+def cb_reserialise(rng, data):
+    ''' another valid serialisation of the same CBOR sequence, different octets when at all possible '''
+    trees = cb_parse_seq(data)
+    for _ in range(20):
+        out = b''.join(cb_emit_foreign(t, rng, 0.6) for t in trees)
+        if out != data:
+            return out
+    return data
+
+
 def split_blocks(data):
     ''' Independent RFC 9171 reading of a bundle: list of dicts per block
     {start, end, items:[(s,e)...], crc_type, crc_span or None, type (canonical)}.
@@ -554,6 +608,59 @@ def real_asb_observable(pay):
     return {'targets': list(pay.getfieldval('targets') or []), 'ctx': pay.getfieldval('context_id'), 'flags': flags,
             'source': pay.getfieldval('source'),
             'params': po(pay.getfieldval('parameters')) if flags & 1 else None, 'results': res}
+
+
+def gen_nonrecord_payload(rng):
+    ''' payloads a PAYLOAD_ADMIN bundle may legitimately carry that are not a dissectable administrative
+    record: later fragments of a record, a status report with a reason code newer than the code's enum,
+    unknown record types, ciphertext that happens to be valid CBOR, truncated records '''
+    rep = gen_status_report(rng, 2 ** 40)
+    full = status_report_cbor(rep)
+    k = rng.randrange(9)
+    if k == 0:
+        rep['reason'] = rng.choice([11, 17, 24, 255, 256])
+        return 'unknown-reason', status_report_cbor(rep)
+    if k == 1:
+        # a later fragment, cut at an item boundary of the record
+        cuts = []
+        p = 1
+        while p < len(full):
+            try:
+                q = cb_skip(full, p)
+            except (ValueError, IndexError):
+                break
+            cuts.append(p)
+            if q >= len(full):
+                break
+            _mt, _n, p2 = cb_read_head(full, p)
+            p = p2 if full[p] >> 5 == 4 else q
+        c = rng.choice(cuts[1:] or [1])
+        return 'later-fragment', full[c:]
+    if k == 2:
+        return 'first-fragment-truncated', full[:rng.randrange(1, len(full))]
+    if k == 3:
+        return 'other-record-type', cb_arr([cb_uint(rng.choice([2, 3, 24, 65536])), cb_arr([cb_uint(1), cb_bstr(b'xy')])])
+    if k == 4:
+        return 'scalar', rng.choice([b'\x05', b'\x18\x20', b'\x20', b'\xf4', b'\xf5', b'\xf6', b'\xf7', b'\x63abc', b'\x42hi',
+                                     b'\xfb\x3f\xf0\x00\x00\x00\x00\x00\x00', b'\xa0', b'\xa1\x01\x02', b'\xc1\x00'])
+    if k == 5:
+        return 'short-array', rng.choice([b'\x80', b'\x81\x01', b'\x82\x01\x80', b'\x82\x01\x05', b'\x82\x01\x81\x80',
+                                          b'\x82\x01\x82\x80\x00', b'\x82\x80\x80', b'\x82\xf6\xf6', b'\x9f\xff', b'\x82\x01\x9f\xff'])
+    if k == 6:
+        return 'foreign-serialisation', cb_reserialise(rng, full)
+    if k == 7:
+        return 'ciphertext', bytes(rng.randrange(256) for _ in range(rng.randrange(0, 40)))
+    return 'extra-items', b'\x83' + full[1:] + b'\x07'
+
+
+def foreign_btsd(rng, blk):
+    ''' BTSD of a known block type as a different encoder could have produced it: (kind, octets) '''
+    ex = blk.get('extra')
+    if ex and ex['kind'] == 'prevnode' and rng.random() < 0.4:
+        host = gen_name(rng, rng.randrange(1, 9))
+        ssp = rng.choice(['//' + host, '//' + host + '?q', '///' + host, '//' + host + '\t/x', 'no\tne'])
+        return 'eid-text-not-normal', cb_arr([cb_uint(1), cb_tstr(ssp)])
+    return 'reserialised', cb_reserialise(rng, blk['btsd'])
 
 
 def gen_btsd(rng, ty, big=False):
